@@ -214,11 +214,18 @@ def labelJson (host : Str) (port : Int) : Str := host ++ [':'] ++ showInt port
 /-- `aconf.port = v`, and the same test in `SSH_Socket.__init__` -/
 def checkPort (v : Int) : Except Exn Int := if v < 1 ∨ v > 65535 then .error .value else .ok v
 
-/-- `aconf.ipv4 = argument.ipv4; aconf.ipv6 = argument.ipv6` (in this order, whatever the order on
-    the command line): the resulting `ip_version_preference`.  `flags` are the `-4`/`-6` options in
-    the order they were written (4 or 6). -/
-def ipPref (flags : List Nat) : List Nat :=
-  (if flags.contains 4 then [4] else []) ++ (if flags.contains 6 then [6] else [])
+/-- one round of `for ip_version in (argument.ip_versions or []):` — `aconf.ipv4 = True` /
+    `aconf.ipv6 = True` append 4 / 6 to `ip_version_preference`, each at most once
+    (`not aconf.ipv4` ⇔ 4 is not yet in the list) -/
+def ipPrefStep (pref : List Nat) (v : Nat) : List Nat :=
+  if v = 4 ∧ pref.contains 4 = false then pref ++ [4]
+  else if v = 6 ∧ pref.contains 6 = false then pref ++ [6]
+  else pref
+
+/-- the `ip_version_preference` that `process_commandline` builds.  `flags` is argparse's
+    `ip_versions` (`append_const`): the `-4`/`-6` options in the order they were written (4 or 6;
+    clustered short options such as `-64` count letter by letter). -/
+def ipPref (flags : List Nat) : List Nat := flags.foldl ipPrefStep []
 
 /-- what the user asked for: the distinct flags in the order written -/
 def requestedOrder : List Nat → List Nat
